@@ -130,6 +130,8 @@ class Check:
         for ji, job in enumerate(jobs):
             job.setdefault('defines', {})
             job.setdefault('timeout', 300)
+            if self.tier == 'thorough':
+                job['timeout'] = max(job['timeout'], 3000)  # the thorough tier shares the cores between more jobs
             job.setdefault('slice', 25)
             job.setdefault('max_steps', 20_000_000)
             if job.get('hang_is_finding'):
